@@ -158,7 +158,15 @@ def c10Inner (op : String) (args : List String) (impl : String) : Verdict :=
         | "short" | "integer" | "integer64" | "date" => !implOk || impl == s!"ok {natOfBytes a}"
         | "vsa" => !implOk || impl == s!"ok {natOfBytes (a.take 4)} {hexOf (a.drop 4)}"
         | "tlv" => !implOk || impl == s!"ok {(a.getD 0 0).toNat} {hexOf (a.drop 2)}"
-        | "ipv6prefix" => true
+        | "ipv6prefix" =>
+            -- the address is the octets after the two-octet header, padded with zeros to sixteen; the mask has as many
+            -- leading one bits as the prefix-length octet says (written from RFC 3162 §2.3, not with the model's decoder)
+            let pl := (a.getD 1 0).toNat
+            let ip := a.drop 2 ++ zeros (18 - a.length)
+            let mask : Bytes := (List.range 16).map fun i =>
+              let keep := if (i + 1) * 8 ≤ pl then 8 else if i * 8 ≥ pl then 0 else pl - i * 8
+              UInt8.ofNat (256 - 2 ^ (8 - keep))
+            !implOk || impl == s!"ok {hexOf ip} {hexOf mask}"
         | _ => !implOk || impl == s!"ok {hexOf a}"
       mk impl model [noCrash impl, ("accepts_exactly_wire_format", implOk == accept), ("decoded_value", valueOk)]
     | none => bad "hex"
